@@ -43,18 +43,18 @@ def generate(tier, rng):
     n = 1200 if tier == "quick" else 40000
     for _ in range(n):
         sc = gen.pick_scale(rng, decimal_share=0.3)
-        A = gen.random_itier(rng, tmax=50, maxn=7, name="A")
+        A = gen.random_itier(rng, tmax=50, maxn=7, name="A", long_p=0.015)
         u = rng.random()
         if u < 0.1:
-            B = dict(A, name="B")
+            B = dict(A, name=rng.choice(["B", "A"]))      # the very same intervals (also under the very same name)
         elif u < 0.2:
             B = {"kind": "I", "name": "B", "entries": [], "min": 0, "max": 50}
         else:
-            B = gen.random_itier(rng, tmax=rng.choice([50, 70]), maxn=7, name="B")
+            B = gen.random_itier(rng, tmax=rng.choice([50, 70]), maxn=7, name="B", long_p=0.015)
         cases.append({"op": rng.choice(list(OPS)), "tier": A, "args": {"other": B}, "scale": sc})
     for _ in range(300 if tier == "quick" else 8000):
-        A = gen.random_ptier(rng, tmax=20, maxn=6, name="A")
-        B = gen.random_ptier(rng, tmax=25, maxn=6, name="B")
+        A = gen.random_ptier(rng, tmax=20, maxn=6, name="A", long_p=0.015)
+        B = gen.random_ptier(rng, tmax=25, maxn=6, name="B", long_p=0.015)
         cases.append({"op": "union", "tier": A, "args": {"other": B}, "scale": gen.pick_scale(rng)})
     for _ in range(300 if tier == "quick" else 3000):
         tiers = []
@@ -70,6 +70,17 @@ def generate(tier, rng):
     elig = [c for c in cases if c["op"] != "mergeTiers" and gen.near_ok(c["tier"]["entries"], c["args"]["other"]["entries"])]
     for c in rng.sample(elig, min(len(elig), 800 if tier == "quick" else 20000)):
         cases.append(dict(c, scale=["near", 1]))
+    # B = A except that some boundaries are the binary64 neighbour: equal to within any tolerance, not equal
+    for _ in range(200 if tier == "quick" else 5000):
+        A = gen.random_itier(rng, tmax=24, maxn=5, name="A")
+        for e in A["entries"]:
+            e[0], e[1] = 2 * e[0], 2 * e[1]
+        A["min"], A["max"] = 2 * min(0, A["min"]), 2 * max(24, A["max"])
+        B = {"kind": "I", "name": rng.choice(["A", "A", "B"]), "min": A["min"], "max": A["max"],
+             "entries": [[e[0] + (1 if rng.random() < 0.3 else 0), e[1] + (1 if rng.random() < 0.3 else 0), e[2]] for e in A["entries"]]}
+        ok = all(x[1] <= y[0] for x, y in zip(B["entries"], B["entries"][1:]))
+        if ok and gen.near_ok(A["entries"], B["entries"]):
+            cases.append({"op": rng.choice(list(OPS)), "tier": A, "args": {"other": B}, "scale": ["near", 1]})
 
     return cases
 
